@@ -298,3 +298,64 @@ def poison_result(rng, r):
         except Exception:  # noqa: BLE001
             pass
     return len(cs)
+
+
+def process_history(rng, blackboxes=()):
+    """calls a long-lived process may have made before the one under test: rarely used argument forms and rejected calls
+    whose only legitimate effect is an exception.  Anything they leave behind (a mutable default, a module-level set edited in
+    place, a shared BlackBox description changed on an error path) must not influence later calls.  Every call here is legal
+    API use; exceptions are expected and swallowed."""
+    def quiet(f, *a, **k):
+        try:
+            return f(*a, **k)
+        except Exception:  # noqa: BLE001
+            return None
+    # lint collecting all problems of an ill-formed circuit
+    bad = cg.Circuit("zz_bad")
+    bad.add("a", "input")
+    bad.add("b", "buf")                       # undriven
+    bad.add("n", "not", fanin=["a"])
+    bad.graph.add_edge("b", "a")              # fan-in on an input
+    bad.graph.add_node("t", output=False)     # untyped
+    quiet(cg.lint, bad, fail_fast=False)
+    quiet(cg.lint, bad, True, True, True, True)
+    # rejected add_blackbox calls (unknown pin, illegal connection) on description objects that are used again later
+    for bb in list(blackboxes) + [cg.BlackBox("zz_ff", ["clk", "d"], ["q"])]:
+        c = cg.Circuit("zz_h")
+        c.add("x", "input")
+        c.add("y", "input")
+        quiet(c.add_blackbox, bb, "zz_u", {"zz_nope": "x"})
+        for pin in sorted(bb.outputs()):
+            quiet(c.add_blackbox, bb, "zz_v", {pin: "y"})      # an output pin may not drive an input
+    # flag forms of remove_unloaded, strip_blackboxes, sequential_unroll on a scratch sequential circuit
+    sc = cg.Circuit("zz_s")
+    sc.add("a", "input")
+    sc.add("clk", "input")
+    sc.add("dead", "not", fanin=["a"])
+    sc.add("g", "xor", fanin=["a"])
+    sc.add("q", "buf", output=True)
+    ff = cg.BlackBox("zz_ffq", ["clk", "d"], ["q", "qn"])
+    sc.add_blackbox(ff, "zz_r", {"clk": "clk", "d": "g", "q": "q"})
+    sc.connect("q", "g")
+    quiet(lambda: sc.copy().remove_unloaded(inputs=True))
+    quiet(lambda: sc.copy().remove_unloaded())
+    for ign in ("clk", ["clk", "qn"], "qn", None):
+        quiet(cg.tx.strip_blackboxes, sc, ign)
+        quiet(cg.tx.sequential_unroll, sc, 2, "d", "q", ign)
+    # writers on a circuit with an escaped name; readers on a rejected text
+    ec = cg.Circuit("zz_e")
+    ec.add("\\a[0]", "input")
+    ec.add("o", "not", fanin=["\\a[0]"], output=True)
+    quiet(cg.io.circuit_to_verilog, ec)
+    quiet(cg.io.circuit_to_verilog, ec, True)
+    quiet(cg.io.circuit_to_bench, ec)
+    quiet(cg.io.verilog_to_circuit, "module zz_m(a, o); input a; output o; zz_ffq u (.zz(a), .q(o)); endmodule", "zz_m", False, [ff])
+    quiet(cg.io.verilog_to_circuit, "module zz_m(a, o); input a; output o; zz_ffq u (.zz(a), .q(o)); endmodule", "zz_m", True, [ff])
+    quiet(cg.io.bench_to_circuit, "INPUT(a)\nOUTPUT(o)\no = NOT(a, a)\n", "zz_b")
+    # rejected construction calls on a scratch circuit
+    k = cg.Circuit("zz_k")
+    k.add("a", "input")
+    quiet(k.add, "a", "and")
+    quiet(k.add, "g", "mux")
+    quiet(k.connect, "a", "a")
+    quiet(k.add_subcircuit, k, "a")
